@@ -129,6 +129,22 @@ Theorem C18_subgroups_absent_member_refuted :
 Proof. exact sub_absent_member_refuted. Qed.
 Print Assumptions C18_subgroups_absent_member_refuted.
 
+(* ---------- the helper predicates of utils.py (translated whole on every run) are what the model hard-codes ---------- *)
+Theorem C18_is_dataclass_instance_bridge : forall v, is_dataclass_instance_gen (kind_of v) = is_dc v.
+Proof. exact is_dc_bridge. Qed.
+Print Assumptions C18_is_dataclass_instance_bridge.
+Theorem C18_resolve_arms_bridge : forall s,
+  is_dataclass_type_gen (skind s) = match s with SType _ => true | _ => false end /\
+  is_dataclass_instance_gen (skind s) = match s with SInst _ => true | _ => false end.
+Proof. exact resolve_arms_bridge. Qed.
+Print Assumptions C18_resolve_arms_bridge.
+Theorem C18_contains_dc_bridge : forall t, contains_dc_gen t = spec_holds_dc t.
+Proof. exact contains_dc_bridge. Qed.
+Print Assumptions C18_contains_dc_bridge.
+Theorem C18_is_optional_bridge : forall t, is_optional_gen t = spec_optional t.
+Proof. exact is_optional_bridge. Qed.
+Print Assumptions C18_is_optional_bridge.
+
 (* non-vacuity: a three-level frozen-style tree, a change set with a nested change, a member swap and a dict value;
    its dotted rendering gives the same result; an init=False target raises *)
 Definition ex_inner : value := VDc "C2" [("lr", FInit, VLeaf "float" "0.5"); ("n", FNonInit "int" "3", VLeaf "int" "3")].
